@@ -852,11 +852,13 @@ class MessageManager(ClientLike):
         for i, (sock, module) in enumerate(list(self.modules.items())):
             # if sock == self.listen_socket:
             #     continue
-            msg.client_mod_id[i] = module.mod_id
-            msg.client_pid[i] = module.pid
+            # the message only has room for MAX_ACTIVE_CLIENTS entries
+            if i < cd.MAX_ACTIVE_CLIENTS:
+                msg.client_mod_id[i] = module.mod_id
+                msg.client_pid[i] = module.pid
             self.send_client_info(module)
 
-        msg.num_clients = len(self.modules) - 1
+        msg.num_clients = min(len(self.modules) - 1, cd.MAX_ACTIVE_CLIENTS)
         self.send_message(msg)
         self.last_client_info = msg.timestamp
 
